@@ -9,6 +9,8 @@ From Coq Require Import Init.Byte.
 From FFS Require Import Base.Res Base.Bytes Abi.Spec.
 From FFS Require Import Eip712.Util Eip712.Input Eip712.Numeric Eip712.Coerce Eip712.Model.
 From FFS Require Import Eip712.TotalProofsInput Eip712.TotalProofs Eip712.TotalProofsFuel Eip712.NumericProofs Eip712.SpellingProofs Eip712.SpellingDocProofs Eip712.SpellingDocOptProofs Eip712.ExactSpellingProofs.
+From FFS Require Import Base.Keccak Crypto.Ecdsa Eip712.ProofsSignVerify Eip712.ComposeJson Eip712.RefJsonNumber Eip712.RefDocument Eip712.RefSigner.
+From FFS Require Secp.Model.
 Import ListNotations.
 
 (* 1. Totality.  Any JSON tree offered as the document — decoded into a TypedData value and hashed,
@@ -206,3 +208,251 @@ Example C14_nonvacuous :
 Proof.
   repeat split; try (vm_compute; reflexivity); try (eexists; vm_compute; reflexivity).
 Qed.
+
+
+(* ================================================================================================
+   Answers to the statement review (design/reviews/C14.md); proofs in Eip712/RefJsonNumber.v and
+   Eip712/RefDocument.v (document walk [doc_reaches] and its lemmas: Eip712/ComposeJson.v).
+   ================================================================================================ *)
+
+(* 4. (review issue 2) Every JSON number — RFC 8259: [ minus ] int [ frac ] [ exp ], written
+      declaratively as [json_number] — lies inside the grammars the model treats itself: the math/big
+      oracle is never consulted for a JSON number. *)
+Theorem C14_json_number_in_grammar :
+  forall t, json_number t -> classify t <> COther.
+Proof. exact json_number_classified. Qed.
+Print Assumptions C14_json_number_in_grammar.
+
+(* 4'. The boolean recogniser the evaluator (Eip712/RunC14.v, code 8) applies to every number token
+      the encoding/json lexer hands over, in every document of every run, is sound for [json_number]:
+      the hypothesis of 4 / 4a / 7b is checked on the real lexer's output, not assumed. *)
+Theorem C14_json_number_recogniser_sound :
+  forall t, json_number_b t = true -> json_number t.
+Proof. exact json_number_b_sound. Qed.
+Print Assumptions C14_json_number_recogniser_sound.
+
+(* 4a. Hence clause 3 for JSON numbers without any side condition on the text: a JSON number at an
+      integer member that is hashed at all denotes exactly an integer z in range of the type, and the
+      bytes are the word of z. *)
+Theorem C14_json_number_never_misread :
+  forall H big_other allTypes fuel tn tc t w,
+    integer_member_type allTypes tn tc -> json_number t ->
+    encodeElement H big_other allTypes (S fuel) tn (GNumber t) = Ok w ->
+    exists z, text_denotes t z /\ in_range (is_signed (e_base tc)) (e_m tc) z = true /\ w = word z.
+Proof. exact json_number_member_exact. Qed.
+Print Assumptions C14_json_number_never_misread.
+
+(* 4b. ... and its outcome (word or error) is the same under any two oracles. *)
+Theorem C14_json_number_oracle_free :
+  forall H o1 allTypes o2 fuel tn tc t,
+    integer_member_type allTypes tn tc -> json_number t ->
+    encodeElement H o1 allTypes (S fuel) tn (GNumber t) = encodeElement H o2 allTypes (S fuel) tn (GNumber t).
+Proof. exact json_number_member_oracle_free. Qed.
+Print Assumptions C14_json_number_oracle_free.
+
+(* 5. (review issue 4) What is read from "sign digits" / "sign 0x hexdigits" is, on the text itself,
+      the positional value of the digits — sum of digit * base ^ (digits to the right), [pos_value],
+      with the digit values as tables — with the sign applied: independent of the model's Horner
+      folds, also for non-canonical texts ("+5", "0XfF"). *)
+Theorem C14_decimal_hex_positional :
+  forall o t z,
+    BigIntegerFromString o t = Ok z ->
+    (forall neg ds, classify t = CDec neg ds ->
+       exists sgn, t = sgn ++ ds /\ is_sign sgn neg /\ z = signed neg (pos_value 10 dec_digit_value ds)) /\
+    (forall neg ds, classify t = CHex neg ds ->
+       exists sgn x, t = sgn ++ x30 :: x :: ds /\ is_sign sgn neg /\ (x = x78 \/ x = x58) /\
+                     z = signed neg (pos_value 16 hex_digit_value ds)).
+Proof. exact BigIntegerFromString_positional. Qed.
+Print Assumptions C14_decimal_hex_positional.
+
+(* 6. (review issue 3) "w = word z" identifies z: [word] is injective on the range of a type of at
+      most 256 bits, so two values accepted at one integer member with the same bytes were read as
+      the same integer. *)
+Theorem C14_word_identifies_integer :
+  forall sgn m z1 z2,
+    (m <= 256)%N -> in_range sgn m z1 = true -> in_range sgn m z2 = true -> word z1 = word z2 -> z1 = z2.
+Proof. exact word_inj_in_range. Qed.
+Print Assumptions C14_word_identifies_integer.
+
+Theorem C14_same_word_same_integer :
+  forall H big_other allTypes fuel tn tc v1 v2 w,
+    integer_member_type allTypes tn tc ->
+    encodeElement H big_other allTypes (S fuel) tn v1 = Ok w ->
+    encodeElement H big_other allTypes (S fuel) tn v2 = Ok w ->
+    exists z, integer_of_gval big_other v1 = Ok z /\ integer_of_gval big_other v2 = Ok z.
+Proof. exact integer_member_injective. Qed.
+Print Assumptions C14_same_word_same_integer.
+
+(* 7. (review issue 3) Clause 3 on the DOCUMENT.  [doc_reaches td f tn v]: the hashing walk, from a
+      member of the domain or of the message through struct members and array elements as
+      encodeElement descends, evaluates the value v at type tn.  If the document hashes, then at
+      every reached position of integer type the value was read as an integer z in range of the
+      type, the position contributed the word of z, and a text of the modelled grammars there — in
+      particular every JSON number — denotes exactly z: an element error cannot be swallowed and no
+      default is hashed. *)
+Theorem C14_document_integers_exact :
+  forall H big_other td dg f tn tc v,
+    EncodeTypedDataV4 H big_other (Some td) = Ok dg ->
+    doc_reaches td f tn v ->
+    integer_member_type (effective_types (td_types td)) tn tc ->
+    exists z, integer_of_gval big_other v = Ok z /\
+              in_range (is_signed (e_base tc)) (e_m tc) z = true /\
+              encodeElement H big_other (effective_types (td_types td)) f tn v = Ok (word z) /\
+              (forall t, (v = GNumber t \/ v = GString t) -> classify t <> COther -> text_denotes t z) /\
+              (forall t, v = GNumber t -> json_number t -> text_denotes t z).
+Proof. exact document_integers_exact. Qed.
+Print Assumptions C14_document_integers_exact.
+
+(* 7a. Contrapositive: a numeric text (JSON number or string, in the modelled grammars) at a reached
+      position of integer type that denotes no integer in range of the type makes the whole document
+      an error, whatever the rest of the document is ... *)
+Theorem C14_document_inexact_rejected :
+  forall H big_other td f tn tc t v,
+    doc_reaches td f tn v -> (v = GNumber t \/ v = GString t) ->
+    integer_member_type (effective_types (td_types td)) tn tc ->
+    no_integer_in_range tc t ->
+    exists e, EncodeTypedDataV4 H big_other (Some td) = Err e.
+Proof. exact rejects_inexact_from_json. Qed.
+Print Assumptions C14_document_inexact_rejected.
+
+(* 7b. ... for a JSON number with no side condition on the text. *)
+Theorem C14_document_json_number_rejected :
+  forall H big_other td f tn tc t,
+    doc_reaches td f tn (GNumber t) -> json_number t ->
+    integer_member_type (effective_types (td_types td)) tn tc ->
+    (forall z, text_denotes t z -> in_range (is_signed (e_base tc)) (e_m tc) z = false) ->
+    exists e, EncodeTypedDataV4 H big_other (Some td) = Err e.
+Proof. exact document_json_number_rejected. Qed.
+Print Assumptions C14_document_json_number_rejected.
+
+(* 8. (review issue 5) With the concrete Keccak-256 (Base/Keccak.v): hashing any payload gives a
+      32-byte digest or an error that is not the model's out-of-fuel error; hashing any JSON tree
+      gives a 32-byte digest or an error. *)
+Theorem C14_digest_or_error_keccak :
+  forall big_other (payload : option typed_data),
+    (exists d, EncodeTypedDataV4 keccak256 big_other payload = Ok d /\ length d = 32%nat) \/
+    (exists e, EncodeTypedDataV4 keccak256 big_other payload = Err e /\ e <> EOutOfFuel).
+Proof. exact payload_digest_or_error. Qed.
+Print Assumptions C14_digest_or_error_keccak.
+
+Theorem C14_document_digest_or_error_keccak :
+  forall big_other (doc : json),
+    let r := do td <- decode_typed_data doc; EncodeTypedDataV4 keccak256 big_other (Some td) in
+    (exists d, r = Ok d /\ length d = 32%nat) \/ (exists e, r = Err e).
+Proof. exact document_digest_or_error. Qed.
+Print Assumptions C14_document_digest_or_error_keccak.
+
+(* 8a. (review issue 5b) The hypothesis of the signing half of C14_total discharged for C05's model
+      of KeyPair.SignDirect ([key_signer], Secp/Model.v) over every group satisfying Crypto.Ecdsa.laws
+      whose order fits 32 bytes (R, S in [1, n-1]): signing any JSON document with it never panics.
+      (That secp256k1 satisfies the laws is C05's trusted fact; instances in Coq: the toy groups.) *)
+Theorem C14_signer_in_range_C05 :
+  forall (o : group_ops), laws o -> (n o < Secp.Model.two256)%Z ->
+  forall nonce fuel d, signer_in_range (key_signer o nonce fuel d).
+Proof. exact key_signer_in_range. Qed.
+Print Assumptions C14_signer_in_range_C05.
+
+Theorem C14_sign_total_C05_signer :
+  forall (o : group_ops), laws o -> (n o < Secp.Model.two256)%Z ->
+  forall H big_other nonce fuel d (doc : json),
+    (do p <- decode_typed_data_ptr doc; SignTypedDataV4 H big_other (key_signer o nonce fuel d) p) <> Panic.
+Proof. exact sign_document_total_key_signer. Qed.
+Print Assumptions C14_sign_total_C05_signer.
+
+(* 9. (review issue 6) The document-level agreement stated from JSON trees through the decoder: two
+      JSON documents that decode to the same types and primary type and to related domain / message
+      give the same outcome on the hashing path and on the signing path (pointer decode). *)
+Theorem C14_spellings_agree_json :
+  forall H big_other sign_direct doc1 doc2 types primary od1 od2 om1 om2,
+    decode_typed_data doc1 = Ok (mkTD types primary od1 om1) ->
+    decode_typed_data doc2 = Ok (mkTD types primary od2 om2) ->
+    let ts := effective_types types in
+    opt_members_rel ts (members_of (tget EIP712Domain ts)) od1 od2 ->
+    opt_members_rel ts (members_of (tget primary ts)) om1 om2 ->
+    (do td <- decode_typed_data doc1; EncodeTypedDataV4 H big_other (Some td)) =
+    (do td <- decode_typed_data doc2; EncodeTypedDataV4 H big_other (Some td)) /\
+    (do p <- decode_typed_data_ptr doc1; SignTypedDataV4 H big_other sign_direct p) =
+    (do p <- decode_typed_data_ptr doc2; SignTypedDataV4 H big_other sign_direct p).
+Proof. exact spellings_agree_json. Qed.
+Print Assumptions C14_spellings_agree_json.
+
+(* ---- non-vacuity of the statements above ---- *)
+(* texts inside and outside the JSON number grammar ("010", "0x1F", "+5", "1_0" are not JSON numbers) *)
+Example C14_nonvacuous_json_number :
+  json_number (bs "0") /\ json_number (bs "-12") /\ json_number (bs "-1.50E+3") /\ json_number (bs "1e77") /\
+  ~ json_number (bs "010") /\ ~ json_number (bs "0x1F") /\ ~ json_number (bs "+5") /\ ~ json_number (bs "1_0").
+Proof. exact json_number_examples. Qed.
+
+Example C14_nonvacuous_json_number_b :
+  json_number_b (bs "0") = true /\ json_number_b (bs "-1.50E+3") = true /\ json_number_b (bs "1e77") = true /\
+  json_number_b (bs "-0.0e-0") = true /\
+  json_number_b (bs "010") = false /\ json_number_b (bs "+5") = false /\ json_number_b (bs "1.") = false /\
+  json_number_b (bs ".5") = false /\ json_number_b (bs "1e") = false /\ json_number_b (bs "0x1F") = false /\
+  json_number_b (bs "-") = false /\ json_number_b (bs "1_0") = false /\ json_number_b (bs "1e+") = false.
+Proof. exact json_number_b_examples. Qed.
+
+Example C14_nonvacuous_positional :
+  pos_value 10 dec_digit_value (bs "907") = 907%Z /\ pos_value 16 hex_digit_value (bs "fF0") = 4080%Z.
+Proof. exact positional_example. Qed.
+
+(* the example JSON documents decode to the example payloads, and with the real hash both give the
+   same 32-byte digest: the instance of the document theorems is not "Err = Err" *)
+Example C14_nonvacuous_json_documents :
+  decode_typed_data ex_json1 = Ok (mkTD (Some ex_types) (bs "A") (Some ex_d1) (Some ex_m1)) /\
+  decode_typed_data ex_json2 = Ok (mkTD (Some ex_types) (bs "A") (Some ex_d2) (Some ex_m2)).
+Proof. exact ex_json_decode. Qed.
+
+Example C14_nonvacuous_documents_hash_ok :
+  exists d,
+    EncodeTypedDataV4 keccak256 (fun _ => None) (Some (mkTD (Some ex_types) (bs "A") (Some ex_d1) (Some ex_m1))) = Ok d /\
+    EncodeTypedDataV4 keccak256 (fun _ => None) (Some (mkTD (Some ex_types) (bs "A") (Some ex_d2) (Some ex_m2))) = Ok d /\
+    (do td <- decode_typed_data ex_json1; EncodeTypedDataV4 keccak256 (fun _ => None) (Some td)) = Ok d /\
+    (do td <- decode_typed_data ex_json2; EncodeTypedDataV4 keccak256 (fun _ => None) (Some td)) = Ok d /\
+    length d = 32%nat /\ ex_json1 <> ex_json2.
+Proof. exact ex_documents_hash_ok. Qed.
+
+(* the document-level clause 3: x = 1.5 and x = 1e77 (beyond int256) are refused under every hash and
+   oracle; x = 9223372036854775808 hashes and the position holds exactly 2^63 *)
+Example C14_nonvacuous_document_rejected :
+  forall (H : bytes -> bytes) (big_other : bytes -> option Z),
+  (exists e, EncodeTypedDataV4 H big_other (Some (ex_td_x (bs "1.5"))) = Err e) /\
+  (exists e, EncodeTypedDataV4 H big_other (Some (ex_td_x (bs "1e77"))) = Err e) /\
+  (forall dg, EncodeTypedDataV4 H big_other (Some (ex_td_x (bs "9223372036854775808"))) = Ok dg ->
+     integer_of_gval big_other (GNumber (bs "9223372036854775808")) = Ok (2 ^ 63)%Z).
+Proof. exact ex_document_rejected. Qed.
+
+Example C14_nonvacuous_document_x_hashes :
+  match EncodeTypedDataV4 keccak256 (fun _ => None) (Some (ex_td_x (bs "9223372036854775808"))) with
+  | Ok d => length d = 32%nat | _ => False end.
+Proof. exact ex_document_x_hashes. Qed.
+
+(* "<> Panic" is a result, not a property of the result type: the model panics where the Go code would
+   (a nil *TypeMember rendered by Type.Encode, a FillBytes into too small a buffer, SignTypedDataV4 with
+   a signer outside [signer_in_range] — the hypothesis of C14_total is needed) ... *)
+Example C14_model_can_panic :
+  TypeMember_Encode None = Panic /\
+  Type_Encode (bs "A") (Some [None]) = Panic /\
+  fill_bytes 32 (2 ^ 256) = Panic /\
+  SignTypedDataV4 (fun _ => []) (fun _ => None) (fun _ => Some (2 ^ 256, 1, 27)%Z)
+                  (Some (mkTD None EIP712Domain None None)) = Panic /\
+  ~ signer_in_range (fun _ => Some (2 ^ 256, 1, 27)%Z).
+Proof. exact model_can_panic. Qed.
+
+(* ... and returns errors *)
+Example C14_model_returns_errors :
+  (do td <- decode_typed_data JNull; EncodeTypedDataV4 keccak256 (fun _ => None) (Some td)) = Err EPrimaryTypeRequired /\
+  (do p <- decode_typed_data_ptr JNull;
+   SignTypedDataV4 keccak256 (fun _ => None) (fun _ => Some (1, 1, 27)%Z) p) = Err EPrimaryTypeRequired /\
+  (exists e, decode_typed_data (JArr []) = Err e).
+Proof. exact model_returns_errors. Qed.
+
+(* What is NOT proved, made explicit: a digit string with a leading zero is outside the modelled grammars;
+   the model encodes whatever the math/big oracle answers for it — math/big reads "010" as octal 8, so
+   the string "010" at a uint8 member is hashed as 8.  No exactness theorem covers such strings. *)
+Example C14_leading_zero_string_decided_by_oracle :
+  classify (bs "010") = COther /\
+  (forall H o z, o (bs "010") = Some z -> in_range false 8 z = true ->
+     encodeElement H o [] 1 (bs "uint8") (GString (bs "010")) = Ok (word z)) /\
+  (forall H o, o (bs "010") = None ->
+     exists e, encodeElement H o [] 1 (bs "uint8") (GString (bs "010")) = Err e).
+Proof. exact leading_zero_string_is_oracle. Qed.
